@@ -198,7 +198,7 @@ def strip_comments(src):
     return "".join(out)
 
 
-def coq_make(targets, timeout=3000):
+def coq_make(targets, timeout=1800):
     """Full .vo build of the given targets (relative .vo paths). Raises Broken with the failing file/lemma."""
     with Lock("coq"):
         coq_project()
